@@ -201,6 +201,12 @@ M("ctx-hash-ignores-mtime", ["C18"], CTXS, "    EVP_DigestUpdate(ctx, &statbuf.s
 M("ctx-hash-does-not-follow-symlink", ["C18"], CTXS, "    if (!follow && (statbuf.st_mode & S_IFMT) == S_IFLNK)\n\treturn do_hash_file(file, ctx, true, log_ref);", "")
 M("ctx-hash-no-item-tags(equivalent:length-prefix-suffices)", [], CTXS, "    EVP_DigestUpdate(ctx, &item->type, sizeof(item->type));\n", "")
 M("ctx-hash-skips-tc", ["C18"], CTXS, "    if (hash_item(tc, ctx, log_ref) < 0)\n\tgoto err;\n", "")
+M("ctx-hash-skips-crl", ["C18"], CTXS, "    if (hash_item(crl, ctx, log_ref) < 0)\n\tgoto err;\n", "")
+M("ctx-no-private-key-check", ["C18"], CTXS, "    if (SSL_CTX_check_private_key(ssl_ctx) != 1) {\n\tLOG_TLS_INCONSISTENT_KEY(log_ref);\n\tgoto err_free;\n    }\n", "")
+M("tls-netns-name-cached-per-thread", ["C18"], BTLS, "    if (ut_self_net_ns(ns) < 0) {\n\tLOG_TLS_NET_NS_LOOKUP_FAILED(s, errno);\n\tns[0] = '\\0';\n    }\n", "    static __thread char cached_ns[NAME_MAX];\n    static __thread bool have_ns;\n    if (!have_ns) {\n\tif (ut_self_net_ns(cached_ns) < 0)\n\t    cached_ns[0] = '\\0';\n\thave_ns = true;\n    }\n    strcpy(ns, cached_ns);\n")
+M("tls-crl-lookup-ignores-namespace", ["C18"], BTLS, "\tget_crl_file(ns, cert_dir, &bts->crl);", "\tget_crl_file(\"\", cert_dir, &bts->crl);")
+M("tls-tc-lookup-ignores-namespace", ["C18"], BTLS, "\tget_tc_file(ns, cert_dir, &bts->tc);", "\tget_tc_file(\"\", cert_dir, &bts->tc);")
+M("netns-lookup-uses-process-not-thread", ["C18"], "common/util.c", "    snprintf(self_net_ns, sizeof(self_net_ns), \"/proc/%d/ns/net\", ut_gettid());", "    snprintf(self_net_ns, sizeof(self_net_ns), \"/proc/%d/ns/net\", getpid());")
 M("ctx-store-never-frees", ["C18"], CTXS, "\tSSL_CTX_free(entry->ssl_ctx);", "\t;")
 M("tls-cert-dir-env-cached", ["C18"], BTLS, "    const char *cert_dir = getenv(TLS_CERT_ENV);\n    return cert_dir != NULL ? cert_dir : DEFAULT_CERT_DIR;", "    static const char *cert_dir;\n    if (cert_dir == NULL)\n\tcert_dir = getenv(TLS_CERT_ENV);\n    return cert_dir != NULL ? cert_dir : DEFAULT_CERT_DIR;")
 M("ctx-unreadable-errno-leaks", ["C18"], CTXS, "\tif (item_load(cert, &cert_data) < 0) {\n\t    errno = EPROTO;\n\t    goto out;\n\t}", "\tif (item_load(cert, &cert_data) < 0) {\n\t    goto out;\n\t}")
